@@ -13,7 +13,7 @@ ID = "C12"
 LEVEL = "exploration"
 TECHNIQUE = "runtime differential monitor over a class-skeleton product with an injected observation function"
 RULE = ("class skeletons: bases {none, one, two, inherited chain, diamond, base with metaclass} x metaclass {none, "
-        "explicit} x class keywords {none, one -> __init_subclass__} x decorators {0,1,2} x placement {module, function, class, loop, function with two further super()-using classes, class statement executed twice by a loop in a function, class created inside a super()-using method} = full header product x every single member kind (data attribute, method, staticmethod, classmethod, "
+        "explicit} x class keywords {none, one -> __init_subclass__} x decorators {0, 1, 2, one returning a subclass, one that instantiates the class and calls its methods while decorating} x placement {module, function, class, loop, function with two further super()-using classes, class statement executed twice by a loop in a function, class created inside a super()-using method} = full header product x every single member kind (data attribute, method, staticmethod, classmethod, "
         "property with setter, nested class, lambda attribute, comprehension attribute, if/for/while in the body, zero- "
         "and two-argument super(), __init_subclass__, __slots__, descriptor with __set_name__, private name, docstring, "
         "dunder methods, class variable as method default, annotated member, method closing over a function local, "
@@ -60,7 +60,7 @@ class Desc:
 BASES = {'none': '', 'one': 'B1', 'two': 'B1, B2', 'chain': 'D1', 'diamond': 'D1, D2', 'metabase': 'MB'}
 META = {'no': '', 'explicit': 'metaclass=Meta'}
 KW = {'no': '', 'one': "tag='t'"}
-DECOS = {0: [], 1: ['@deco1'], 2: ['@deco2', '@deco1']}
+DECOS = {0: [], 1: ['@deco1'], 2: ['@deco2', '@deco1'], 'sub': ['@deco_sub'], 'call': ['@deco1', '@deco_call']}
 MEMBERS = {
     'data': ["x = 1", "y = x + 1"],
     'method': ["def m(self, a=2):", "    return ('m', a)"],
@@ -88,10 +88,22 @@ MEMBERS = {
     'staticcall_in_body': ["def _helper(v):", "    return v * 2", "hv = _helper(21)"],
     'super_in_classmethod': ["@classmethod", "def mk(cls):", "    return super().__new__(cls)"],
     'init': ["def __init__(self):", "    super().__init__()", "    self.iv = 'set-in-init'"],
+    'classcell': ["def cc(self):", "    return __class__.__name__", "def cc_super(self):", "    return super().__class__.__name__, super().__init__ is not None"],
 }
 CALLS = ('m', 'm5', 's', 'c', 'p', 'im', 'lam', 'who', 'who2', 'getpv', 'dd', 'md', 'tag', 'hello', 'd1', 'd2')
 
 OBS = '''
+def deco_sub(c):
+    # returns a *subclass* of the class it received
+    return type(c.__name__ + 'Sub', (c,), {'from_deco': 'sub'})
+def deco_call(c):
+    # uses the class while decorating it: instantiates it and calls what it finds
+    try:
+        o = c()
+        c.at_deco_time = [getattr(o, n)() for n in ('who', 'cc', 'm') if hasattr(o, n)]
+    except Exception as e:
+        c.at_deco_time = 'exc:' + type(e).__name__
+    return c
 def _obs(K):
     out = []
     skip = {'__module__', '__dict__', '__weakref__', '__doc__', '__qualname__', '__firstlineno__', '__static_attributes__', '__annotations__', '__annotate__', '__annotate_func__', '__annotations_cache__'}
@@ -108,7 +120,7 @@ def _obs(K):
     for name, call in [('m', lambda: o.m()), ('m5', lambda: o.m(5)), ('s', lambda: K.s(1)), ('c', lambda: K.c()), ('p', lambda: o.p), ('im', lambda: K.Inner().im()), ('lam', lambda: o.lam()),
                        ('who', lambda: o.who()), ('who2', lambda: o.who2()), ('getpv', lambda: o.getpv()), ('dd', lambda: o.dd), ('md', lambda: o.md()), ('tag', lambda: K.tag), ('hello', lambda: K.hello()),
                        ('d1', lambda: K.d1), ('d2', lambda: K.d2), ('hasdict', lambda: hasattr(o, '__dict__')), ('repr', lambda: repr(o) if 'K()' == repr(o) else 'default'),
-                       ('cm2', lambda: o.cm2()), ('hv', lambda: K.hv), ('mk', lambda: type(K.mk()).__name__), ('iv', lambda: o.iv), ('setp', lambda: (setattr(o, 'p', 3), o._pv)[1]),
+                       ('cm2', lambda: o.cm2()), ('cc', lambda: o.cc()), ('cc_super', lambda: o.cc_super()), ('at_deco_time', lambda: K.at_deco_time), ('from_deco', lambda: K.from_deco), ('ps', lambda: (K.ps, K.pt, o.pm())), ('hv', lambda: K.hv), ('mk', lambda: type(K.mk()).__name__), ('iv', lambda: o.iv), ('setp', lambda: (setattr(o, 'p', 3), o._pv)[1]),
                        ('seen_by_meta', lambda: K.seen_by_meta), ('attrs_at_subclass_time', lambda: K.attrs_at_subclass_time), ('sc', lambda: K().s(2)), ('cnt', lambda: (K.cnt, K.lst))]:
         try: out.append((name, repr(call())))
         except Exception as e: out.append((name, 'exc:' + type(e).__name__))
@@ -126,6 +138,8 @@ def _obs(K):
 _NS = {}
 exec(OBS, _NS)
 _obs = _NS['_obs']
+_deco_sub = _NS['deco_sub']
+_deco_call = _NS['deco_call']
 
 
 def program(b, m, kw, d, members, place):
@@ -135,6 +149,10 @@ def program(b, m, kw, d, members, place):
     body = []
     for mem in members:
         body += MEMBERS[mem]
+    if place == 'funcparam':
+        # the class body (not a method, not the header) reads parameters of the enclosing function that were rebound
+        # before the class statement ran
+        body = ["ps = size", "pt = (tag, size)", "def pm(self):", "    return (size, tag)"] + body
     if not body:
         body = ['pass']
     lines += ['    ' + l for l in body]
@@ -147,6 +165,9 @@ def program(b, m, kw, d, members, place):
     if place == 'loop':
         return PRE + "for _r in range(2):\n" + '\n'.join('    ' + l for l in lines) + "\n    print(_obs(K))\n"
     ind = lambda n: '\n'.join('    ' * n + l for l in lines)
+    if place == 'funcparam':
+        return (PRE + "def mk(size=None, tag='p'):\n    if size is None:\n        size = 4\n    def bump():\n        nonlocal tag\n        tag = tag + '!'\n    bump()\n"
+                + ind(1) + "\n    size = 'rebound-after'\n    return K\nprint(_obs(mk()))\nprint(_obs(mk(7, 'q')))\n")
     if place == 'func2':
         # two class statements in one function, both with zero-argument super()
         return (PRE + "def mk():\n    class Pre(B2):\n        def who(self):\n            return 'Pre>' + super().who()\n" + ind(1)
@@ -163,7 +184,7 @@ def program(b, m, kw, d, members, place):
 
 
 HEADERS = list(itertools.product(BASES, META, KW, DECOS))
-PLACES = ['module', 'func', 'class', 'loop', 'func2', 'funcloop', 'inmethod']
+PLACES = ['module', 'func', 'class', 'loop', 'func2', 'funcloop', 'inmethod', 'funcparam']
 
 
 def cells(tier):
@@ -187,7 +208,8 @@ def cells(tier):
 
 
 def mkenv():
-    return {"__name__": "__main__", "_obs": _obs}, []
+    # harness helpers that need try/except (which the converter cannot translate) are injected into both namespaces
+    return {"__name__": "__main__", "_obs": _obs, "deco_sub": _deco_sub, "deco_call": _deco_call}, []
 
 
 def run_case(rec, hdr, members, pl, cfg):
